@@ -224,6 +224,11 @@ class kFlowDecomp(pathmodel.AbstractPathModelDAG):
         self.optimization_options["trusted_edges_for_safety"] = self.G.get_non_zero_flow_edges(flow_attr=self.flow_attr, edges_to_ignore=self.edges_to_ignore)
 
         self.solution_weights_superset = list(solution_weights_superset) if solution_weights_superset is not None else None      # (a copy, read again in get_solution())
+        # (the given weights are handed out as they are: they must be weights of the requested type, i.e. non-negative and, for int, whole numbers)
+        for given_weight in (self.solution_weights_superset or []):
+            if not (given_weight >= 0) or (weight_type == int and float(given_weight) != int(given_weight)):
+                utils.logger.error(f"{__name__}: solution_weights_superset must contain non-negative weights of type {weight_type}, not {given_weight}")
+                raise ValueError(f"solution_weights_superset must contain non-negative weights of type {weight_type}, not {given_weight}")
         
         if self.solution_weights_superset is not None:
             self.k = len(self.solution_weights_superset)
